@@ -3671,6 +3671,10 @@ class CacheDataset(Dataset):
             item = self.keys().index(item)
 
         if isinstance(item, numbers.Integral):
+            if item < 0:
+                item = item + len(self)
+                if item < 0:
+                    raise IndexError(item - len(self))
             try:
                 return self._cache[item]
             except KeyError:
